@@ -364,10 +364,15 @@ class XYData(Generic[TData]):
             "extended_properties": self._extended_properties,
             "copy_extended_properties": False,
         }
-        return (self.__class__._unpickle, (ctor_args, ctor_kwargs))
+        return (self.__class__._unpickle, (ctor_args, ctor_kwargs, self.dtype))
 
     @classmethod
-    def _unpickle(cls, args: tuple[Any, ...], kwargs: dict[str, Any]) -> Self:
+    def _unpickle(
+        cls, args: tuple[Any, ...], kwargs: dict[str, Any], dtype: npt.DTypeLike | None = None
+    ) -> Self:
+        if dtype is not None:
+            # Pickle protocols below 5 store an array of non-native byte order as a native one.
+            args = tuple(a.astype(dtype) if a.dtype != dtype else a for a in args)
         return cls(*args, **kwargs)
 
     def __repr__(self) -> str:
